@@ -1,11 +1,11 @@
 #!/usr/bin/env python3
 """eval_seeds.py <prop> <worktree> [extra props...]: confirm each mutant under <worktree>/_out/m*/ in the scratch
-worktree, keep confirmed ones as /verif/seeded/<prop>-<mk>/ and run the quick checks of <prop> (+extras) against each."""
+worktree, keep confirmed ones as /verif/seeded/<prop>-[$SEED_BATCH]<mk>/ and run the quick checks of <prop> (+extras) against each."""
 import json, os, subprocess, sys, shutil, glob
 prop, wt = sys.argv[1], sys.argv[2]
 extra = sys.argv[3:]
 for m in sorted(glob.glob(os.path.join(wt, "_out", "m*"))):
-    name = "%s-%s" % (prop, os.path.basename(m))
+    name = "%s-%s%s" % (prop, os.environ.get("SEED_BATCH", ""), os.path.basename(m))
     dst = os.path.join("/verif/seeded", name)
     r = subprocess.run(["/verif/tools/confirm_seed.sh", wt, m], stdout=subprocess.PIPE, text=True)
     line = r.stdout.strip().splitlines()[-1] if r.stdout.strip() else "{}"
